@@ -607,3 +607,18 @@ package erpc
 //@   property C13
 //@   requires sess != nil && sess.socket != nil && p != nil && p.dialer != nil && p.sessHub != nil
 //@   ensures?[success-is-ok] result ==> sess.status == statusOk
+
+// ---- C06: whatever is received, the reader ends in the disconnect routine -------
+//@ ghost global disconnectRuns int
+//@ trusted (*session).readDisconnected
+//@   flags libframe
+//@   modifies allof(type(session)), allof(type(socket.socket)), allof(type(callCmd)), lockset, waitgroups
+//@   ghostset ghost.disconnectRuns = old(ghost.disconnectRuns) + 1
+//@ trusted Go
+//@   flags libframe
+//@ func (*session).startReadAndHandle
+//@   property C06
+//@   flags recover-scope
+//@   requires s.peer != nil && s.socket != nil && s.peer.pluginContainer != nil
+//@   ensures[reader-ends-in-disconnect] ghost.disconnectRuns == old(ghost.disconnectRuns) + 1
+//@   ensures[reader-ends-in-disconnect-after-panic]! ghost.disconnectRuns == old(ghost.disconnectRuns) + 1
